@@ -128,10 +128,29 @@ func waitTickers(want int, max time.Duration) {
 	}
 }
 
+// starved is set when a bounded real-time wait expired although an unrelated heartbeat goroutine was not getting
+// scheduled either: the machine is overloaded and the observation says nothing (INCONCLUSIVE, never a verdict).
+var starved int32
+
 // settle waits (bounded, real time) until every fired tick has been consumed
 // and Count has been stable for a while, i.e. a janitor pass, if any, is over.
 func settle(c lifeCache) {
-	deadline := time.Now().Add(5 * time.Second)
+	var beats int64
+	stop := make(chan struct{})
+	go func() {
+		for {
+			select {
+			case <-stop:
+				return
+			default:
+				atomic.AddInt64(&beats, 1)
+				time.Sleep(time.Millisecond)
+			}
+		}
+	}()
+	defer close(stop)
+	start := time.Now()
+	deadline := start.Add(5 * time.Second)
 	last, stableSince := c.Count(), time.Now()
 	for time.Now().Before(deadline) {
 		time.Sleep(200 * time.Microsecond)
@@ -143,6 +162,10 @@ func settle(c lifeCache) {
 		if time.Since(stableSince) > 20*time.Millisecond {
 			return
 		}
+	}
+	// the deadline expired: was the machine able to run goroutines at all? (5 s of 1 ms sleeps = thousands of beats)
+	if atomic.LoadInt64(&beats) < 500 {
+		atomic.StoreInt32(&starved, 1)
 	}
 }
 
@@ -199,6 +222,9 @@ func runLife(p *LifeProgram, tr int, tw *TraceWriter) {
 		case "observe":
 		}
 		e.X = int64(c.Count())
+		if atomic.LoadInt32(&starved) == 1 {
+			e.Note = "starved"
+		}
 		mu.Lock()
 		e.Evs = append([]KV{}, ledger...)
 		ledger = ledger[:0]
